@@ -287,6 +287,20 @@ def pristine_outcomes(items):
 # Hand-written programs for constructs the grammar-directed generator produces rarely or never, plus the inputs of every
 # defect that was repaired by a "fix:" commit (a fixed defect that returns is reported again).  (text, is_valid_C11)
 ZOO = [
+    # round 9, parser group: enums / structs defined inside parameter lists followed by declarations reusing their names, brace constructs
+    # inside parenthesised declarators, directive lines with empty file names, decimal constants beyond 32 bits, a for-init name
+    # shadowing a same-named parameter that hides a typedef
+    ('void g(enum { A, B } x); typedef int A; A v; void h(struct S { int m; } *p, enum E { P, Q } e); typedef int P;', True),
+    ('int (*pick(struct opt { int a; } *o))(void); int (*tab[sizeof(struct { int a; })])(int); void (*sel(enum { LO, HI } k))(int);', True),
+    ('#line 5 ""\nint x;\n# 1 ""\nint y;\n# 3 "" 1\nint z;\n', True),
+    ('long a = 2147483648; long b = 4294967296; int c = 2147483647; unsigned long d = 18446744073709551615; long e = 9223372036854775807;', True),
+    ('typedef int T; void f(int T, int n){ for (int T = 0; T < n; T++) n--; T * n; } void g(void){ int T = 1; for (int T = 0; T < 3; T++) ; T * 2; { for (int T = 0; ; ) break; } T * 3; }', True),
+    # round 9 (first pass misses): unbraced switch bodies with several labels, K&R definitions whose declaration list omits parameters,
+    # qualified type names without declarator in compound literals / sizeof / casts / _Alignof, very long integer constants of every base
+    ('void f(int x){ switch (x) case 1: case 2: x++; switch (x) default: case 3: ; switch (x) case 4: switch (x) case 5: case 6: x--; }', True),
+    ('int scan(buf, len, flags) char *buf; { return 0; } int two(a, b, c, d) int c; char a; { return c; } int none(p, q) { return 0; }', True),
+    ('struct point { int x; int y; }; void f(void){ p = &(const struct point){0, 0}; n = sizeof(const int); y = (volatile int) z; w = (const int){3}; m = _Alignof(const long); g((const char){1}); }', True),
+    ('unsigned long long big = 0777777777777777777777; unsigned long long b2 = 01777777777777777777777ULL; int a[3] = { 0000000000000000000007, 0x00000000000000000001F, 0b0000000000000000000011 }; long d = 18446744073709551615;', True),
     # round 8 (first pass misses): _Atomic(type-name) over qualified pointee types, tagged struct / union definitions and forward
     # declarations as members without declarator, function specifiers on functions declared through a typedef of function type,
     # declarations after case labels (C99 mixed declarations), `long double _Complex` in every word order, label runs where every
